@@ -888,8 +888,8 @@ def task_reuse(job):
     viol = []
     n = 0
     classes = set()
+    trail = []                        # every call made so far on this one set of workers
     for hi, hist in enumerate(job["hists"]):
-        trail = []
         for ci, h in enumerate(hist):
             desc = h["call"]
             v = rng.randrange(job.get("variants", 2))
@@ -901,7 +901,7 @@ def task_reuse(job):
             trail.append({"call": desc, "variant": v})
             n += 1
             classes.add((desc["kind"], desc["doc"], bool(desc["com"]), desc["ver"]))
-            case = {"part": "reuse", "history": list(trail), "seed": job["seed"], "doctable": job["doctable"],
+            case = {"part": "reuse", "history": trail[-16:], "seed": job["seed"], "doctable": job["doctable"],
                     "variants": job.get("variants", 2), "text": cd.text, "root": job.get("root"),
                     "front_end": cd.fe[bool(desc["com"])] if desc["kind"] == "loads" else None}
             if not abstract_eq(h["exp"], ref_abs):
